@@ -631,7 +631,7 @@ def minimize_lbfgsb(
                         nit=istate.nit,
                         status=istate.warnflag,
                         message=istate.task_str,
-                        x=x,
+                        x=np.copy(x),
                         success=istate.is_success,
                         hess_inv=LbfgsInvHessProduct(
                             np.atleast_2d(np.diff(np.array(X), axis=0)),
